@@ -214,7 +214,8 @@ class SubsequenceSearch:
             distance = dtw.distance
             lb_keogh = dtw.lb_keogh
         if k is None or self.keep_all_distances:
-            self.distances = np.zeros((len(self.s),))
+            # Series that are skipped based on the lower bound are further away than max_dist
+            self.distances = np.full((len(self.s),), np.inf)
             # if self.use_lb:
             #     self.compute_lbs()
         import heapq
